@@ -214,6 +214,15 @@ def run_case(ctx, case):
                {"kind": "mesh", "family": case["mesh"]["family"], "mixed": mixed, "closed": bool(m.closed), "extra_width": case["extra_width"] > 0, "layout": layout,
                 "unused_nodes": bool(case.get("orphans")), "supplied_edge_nodes": bool(extra)})
     ctx.observe("layout_" + layout)
+    # ... and the tables still say the same after other derived quantities have been asked for (these read, and must only read, the edge tables)
+    for name in ("edge_face_connectivity", "face_face_connectivity", "node_face_connectivity", "hole_edge_indices", "edge_node_distances", "edge_face_distances", "edge_lon", "face_areas", "bounds"):
+        try:
+            v = getattr(g, name)
+            np.asarray(v.values) if hasattr(v, "values") else v
+        except Exception:
+            pass
+    check_grid(ctx, g, m.faces, m.n_node, width, m.closed, case["order"],
+               {"kind": "mesh", "family": case["mesh"]["family"], "mixed": mixed, "closed": bool(m.closed), "reread": "after_other_quantities", "supplied_edge_nodes": bool(extra)})
     # grids DERIVED from this one once all its tables exist: non-contiguous face selections (two selected faces may both
     # touch an unselected one) - judged against the faces the derived grid itself reports
     if m.n_face >= 4:
